@@ -211,3 +211,24 @@ def unused_params(mf, skip=('self',)) -> List[str]:
         if tag and tag not in texts:
             out.append(p)
     return out
+
+
+def inline_except(*quals):
+    """inline every repository function except the named semantic anchors (helpers a refactoring may introduce or remove are
+    therefore transparent; the anchors are the functions a specification is phrased in)"""
+    qs = tuple(quals)
+
+    def pred(fi: FuncInfo) -> bool:
+        return not any(fi.qualname == q or (q.endswith('.') and fi.qualname.startswith(q)) for q in qs)
+    return pred
+
+
+SCANS = (SAU + 'find_closest_lower_equal_element_indices_to_values', SAU + 'find_closest_higher_equal_element_indices_to_values',
+         SAU + 'find_closest_lower_or_higher_element_indices_to_values')
+
+
+def exits_of(ev: Evaluator, fi: FuncInfo):
+    """normal and exceptional exits of the top-level function of an evaluation"""
+    rets = [e for e in ev.events if e.kind in ('return', 'fallthrough') and (e.func is fi or e.data.get('func') is fi)]
+    raises = [e for e in ev.events if e.kind == 'raise']
+    return rets, raises
